@@ -382,6 +382,44 @@ pub fn run(tier: &str, shard: Option<&str>) -> Report {
             }
         }
     }
+    // Long streams: more bits in one delivery than any per-call budget a
+    // block might have (thousands), all at once and in large pieces.
+    if si == 0 {
+        let many: Vec<Vec<u8>> = (0..40u8)
+            .map(|i| (0..(2 + i % 7)).map(|j| [0x00u8, 0xff, 0x7e, 0x3f, 0xaa, 0x55, i][((i + j) % 7) as usize]).collect())
+            .collect();
+        let bits = hdlc_stream(&many, true, 3, 1);
+        for chunks in [vec![], vec![1000], vec![1024], vec![1025], vec![1500], vec![2048], vec![3000], vec![7, 2000]] {
+            let c = Case { bits: bits.clone(), min: 2, max: 20, checksum: true, fix: false, chunks };
+            rep.evaluations += 1;
+            rep.distinct_nontrivial += 1;
+            match run_case(&c) {
+                Err(m) => emit(&mut rep, if m.starts_with("panic") { "panic" } else { "error" }, format!("long stream, chunks {:?}: {m}", c.chunks), &c, Some(&many)),
+                Ok(got) if got != many => emit(
+                    &mut rep,
+                    "frame-lost",
+                    format!("{} bits with 40 frames, chunks {:?}: got {} frames", bits.len(), c.chunks, got.len()),
+                    &c,
+                    Some(&many),
+                ),
+                Ok(_) => {}
+            }
+        }
+        let mut idle = vec![];
+        for _ in 0..200 {
+            idle.extend(FLAG);
+        }
+        idle.extend(hdlc_stream(&[vec![0x11, 0x22, 0x33]], true, 1, 1));
+        let want = vec![vec![0x11u8, 0x22, 0x33]];
+        let c = Case { bits: idle, min: 2, max: 20, checksum: true, fix: false, chunks: vec![] };
+        rep.evaluations += 1;
+        rep.distinct_nontrivial += 1;
+        match run_case(&c) {
+            Err(m) => emit(&mut rep, if m.starts_with("panic") { "panic" } else { "error" }, format!("200 idle flags then a frame: {m}"), &c, Some(&want)),
+            Ok(got) if got != want => emit(&mut rep, "frame-lost", format!("200 idle flags then a frame, delivered at once: got {got:02x?}"), &c, Some(&want)),
+            Ok(_) => {}
+        }
+    }
     // Corruption: every single flip, every pair of flips.
     for payload in [vec![0x12u8, 0x7e, 0xff], vec![0x00, 0x00, 0x00], vec![0xaa, 0x3f, 0x55]] {
         let bits = hdlc_stream(&[payload.clone()], true, 2, 2);
